@@ -78,23 +78,32 @@ def grid_monitor(ctx, sc, out):
     if out["upload"] != "ok":
         ctx.count("grid-upload-" + out["upload"])
         return
-    faults = bool(sc["share_faults"] or sc["server_plans"] or sc["copies"] or sc["crafted"])
+    badguess = bool(sc.get("fresh_nodes"))
+    faults = bool(sc["share_faults"] or sc["server_plans"] or sc["copies"] or sc["crafted"] or badguess)
     failed_before = False
     decode_failed_before = False
     for group, outs in zip(sc["reads"], out["groups"]):
+        if badguess:                  # every group runs on a fresh node
+            failed_before = decode_failed_before = False
+        beyond = badguess and any(fc.guess_relation(sc, off) == "beyond" for (off, sz) in group)
         for (off, sz), o in zip(group, outs):
             ctx.case(json.dumps([sc, off, sz]) if faults else None)
             ctx.count("grid-read:" + o)
+            if badguess:
+                ctx.count("badguess:%s:%s%s" % (fc.guess_relation(sc, off), o, ":concurrent" if len(group) > 1 else ""))
             if len(group) > 1:
                 ctx.count("grid-concurrent-read")
             if failed_before:
                 ctx.count("grid-read-after-failed-read:" + o)
             if o == "stuck":
                 sig = "stuck-after-decode-failure" if decode_failed_before else \
-                    ("stuck-after-failed-read" if failed_before else "read-stuck")
+                    ("stuck-after-failed-read" if failed_before else
+                     "stuck-after-bad-segment-number-retry" if beyond else "read-stuck")
                 ctx.violation("a read never completed although every server answered or failed (%s)" %
                               ("after a read that failed in decode / ciphertext hash check on the same node" if
-                               decode_failed_before else "first failure" if not failed_before else "after a failed read"),
+                               decode_failed_before else "after a failed read" if failed_before else
+                               "first read(s) on a fresh node whose guessed segment number is >= the real number of "
+                               "segments: the BadSegmentNumberError retry never re-requested" if beyond else "first failure"),
                               case, sig)
             elif o == "wrong-data":
                 ctx.violation("read returned wrong bytes", case, "wrong-data")
@@ -165,7 +174,7 @@ def run(ctx):
                               % (info["waiting"], info["active"]), ncases[-1],
                               "stuck-after-decode-failure" if any(r.endswith("=decode-failed") for r in info["retired"])
                               else "request-never-retired")
-        for i in range(ctx.budget(600, 20000)):
+        for i in range(ctx.budget(500, 20000)):
             malformed = (i % 3 == 2)
             p, toks, digs, info = fc.gen_node_script(ctx.rng, malformed=malformed, max_events=220)
             ncases.append({"kind": "node", "params": [p[0], p[1], list(p[2])], "toks": toks})
@@ -180,8 +189,17 @@ def run(ctx):
                 ctx.count("node-cancel")
             if len(toks) < 220:
                 node_monitor(ctx, p, toks, info)
-        for i in range(ctx.budget(260, 6000)):
+        for i in range(ctx.budget(200, 6000)):
             scenarios.append(fc.gen_scenario(ctx.rng, want_crafted=(i % 3 == 0)))
+        # corpus: the reader's guess (1000) is smaller than the real segment size (2000): first reads on a fresh
+        # node at offsets whose guessed segment number (2) is >= the real number of segments (2)
+        scenarios.append({"kind": "grid", "k": 1, "n": 2, "servers": 2, "segsize": 2000, "gmax": 1000, "fresh_nodes": True,
+                          "size": 3000, "grid_seed": 5, "policy": "fifo", "dataseed": 6, "copies": [], "share_faults": [],
+                          "server_plans": {}, "reads": [[[2500, 50]], [[2999, 1], [2100, 700]], [[1500, 10]]], "crafted": []})
+        for i in range(ctx.budget(50, 1500)):
+            scenarios.append(fc.gen_badguess_scenario(ctx.rng, faults=(i % 2 == 1)))
+        if ctx.tier == "thorough":
+            scenarios.append(fc.big_badguess_scenario())
         late.append(fc.gen_late_error_scenario(None, canonical=True))      # corpus: minimised history
         for i in range(ctx.budget(20, 350)):
             late.append(fc.gen_late_error_scenario(ctx.rng))
